@@ -21,6 +21,21 @@ from .index import AnalysisError, norm, head
 
 CATCH_ALL = {"Exception", "BaseException"}
 
+_RAISING = (ast.Call, ast.Subscript, ast.BinOp, ast.Yield, ast.YieldFrom, ast.Await, ast.Starred)
+
+
+def may_raise(exprs):
+    """Can evaluating these expressions raise?  Plain names, attributes, constants, boolean
+    operators and comparisons of those are taken not to (an over-approximation would only add
+    infeasible exception paths)."""
+    for e in exprs:
+        if e is None:
+            continue
+        for x in ast.walk(e):
+            if isinstance(x, _RAISING):
+                return True
+    return False
+
 
 class Node:
     __slots__ = ("id", "kind", "stmt", "test", "polarity", "owner", "label")
@@ -147,7 +162,8 @@ class CFG:
         if isinstance(st, ast.If):
             h = self._new("stmt", stmt=st)
             self._connect(preds, h)
-            ctx.exc(h, "x")
+            if may_raise([st.test]):
+                ctx.exc(h, "x")
             gt = self._new("guard", test=st.test, polarity=True, owner=st)
             gf = self._new("guard", test=st.test, polarity=False, owner=st)
             self._edge(h, gt)
@@ -158,7 +174,8 @@ class CFG:
         if isinstance(st, (ast.While, ast.For, ast.AsyncFor)):
             h = self._new("stmt", stmt=st)
             self._connect(preds, h)
-            ctx.exc(h, "x")
+            if not isinstance(st, ast.While) or may_raise([st.test]):
+                ctx.exc(h, "x")
             is_while = isinstance(st, ast.While)
             test = st.test if is_while else None
             gt = self._new("guard", test=test, polarity=True, owner=st)
@@ -195,7 +212,7 @@ class CFG:
         n = self._new("stmt", stmt=st)
         self._connect(preds, n)
         if isinstance(st, ast.Return):
-            if st.value is not None:
+            if st.value is not None and may_raise([st.value]):
                 ctx.exc(n, "x")
             ctx.ret(n)
             return []
@@ -215,7 +232,8 @@ class CFG:
             st, (ast.Pass, ast.Global, ast.Nonlocal, ast.Import, ast.ImportFrom)
         ):
             has_yield = any(isinstance(x, (ast.Yield, ast.YieldFrom)) for x in ast.walk(st))
-            ctx.exc(n, "x", "GeneratorExit" if has_yield else None)
+            if may_raise([st]) or isinstance(st, (ast.Delete, ast.Assert, ast.AugAssign)):
+                ctx.exc(n, "x", "GeneratorExit" if has_yield else None)
         return [n]
 
     def _try(self, st, preds, ctx):
